@@ -128,8 +128,9 @@ struct C11World: World {
       if (s.kind == OP_ONLY) { only_kind = s.a; only_n = s.b; only_val = s.c; continue; }
       apply_history_step(f, fcfg, *sk, s);
     }
+    if (!sk->variant_ok(variant)) { ctx.probe("variant_not_applicable"); return; }
     Bytes img = sk->ser(variant, 0);
-    const std::string want = sk->obs(false);
+    const std::string want = std::unique_ptr<Sk>(sk->image_source(variant))->obs(false);
     ctx.t(static_cast<u64>(img.size())); ctx.t(fnv1a(img.data(), img.size()));
     const size_t size = img.size();
     const size_t budget = std::max<size_t>(64u << 20, 4096 * size);
@@ -169,6 +170,7 @@ struct C11World: World {
           // accepted: only legitimate if the missing tail carried no information
           std::string got; Bytes again; bool ok = true;
           try { got = r.sk->obs(false); again = r.sk->ser(variant, 0); } catch (const std::exception& e) { ok = false; got = e.what(); }
+          if (ok && again != img && sk->canonical(variant, again) == sk->canonical(variant, img)) again = img;
           if (!ok || got != want || again != img) ctx.fail(fp("C11", *sk, variant, pname, "truncated-image-accepted"), where + (ok ? (got != want ? ": different sketch" : ": re-serializes differently") : ": unusable: " + got));
           accepted_same++; ctx.probe("prefix_accepted_as_padding");
           r.sk.reset();
@@ -257,7 +259,7 @@ struct C09World: World {
     if (static_cast<int>(p.cfg.size()) < 1 + f->cfg_len()) return;
     SimRandom rnd(p.run_seed); RandomScope rs(rnd);
     std::unique_ptr<Sk> orig(f->make(fcfg));
-    struct Shadow { std::unique_ptr<Sk> sk; int variant; };
+    struct Shadow { std::unique_ptr<Sk> control; std::unique_ptr<Sk> sk; int variant; };   // control: the in-memory object that was serialized; sk: what came back
     std::vector<Shadow> shadows;
     Bytes disk; std::vector<Record> records;
     int idx = 0;
@@ -266,21 +268,24 @@ struct C09World: World {
       ctx.begin_step(idx, s.kind);
       if (s.kind == OP_FEED || s.kind == OP_MERGE || s.kind == OP_MERGE_MOVE || s.kind == OP_RESET) {
         reseed(idx, 0); apply_history_step(f, fcfg, *orig, s);
-        const std::string o_full = orig->obs(false), o_det = orig->obs(true);
-        ctx.t(o_full);
+        ctx.t(orig->obs(false));
         for (Shadow& sh : shadows) {
-          if (!sh.sk->can_continue()) continue;
-          reseed(idx, 0); apply_history_step(f, fcfg, *sh.sk, s);
-          const bool det = orig->deterministic();
-          const std::string got = det ? sh.sk->obs(false) : sh.sk->obs(true);
-          if (got != (det ? o_full : o_det)) ctx.fail(fp("C09", *orig, sh.variant, "continue", "diverged-after-restore"), std::string(step_name(s.kind)) + ": original " + (det ? o_full : o_det).substr(0, 300) + " vs restored " + got.substr(0, 300));
-          if (!det && sh.sk->obs(false) == o_full) ctx.probe("randomised_full_obs_equal_after_continue");
+          if (!sh.sk->can_continue() || !sh.control->can_continue()) continue;
+          reseed(idx, 1); apply_history_step(f, fcfg, *sh.control, s);
+          reseed(idx, 1); apply_history_step(f, fcfg, *sh.sk, s);
+          const bool det = sh.control->deterministic();
+          const std::string want = sh.control->obs(true), got = sh.sk->obs(true);   // logical content / deterministic projection
+          if (got != want) ctx.fail(fp("C09", *orig, sh.variant, "continue", "diverged-after-restore"), std::string(step_name(s.kind)) + ": original " + want.substr(0, 300) + " vs restored " + got.substr(0, 300));
+          if (!det && sh.sk->obs(false) == sh.control->obs(false)) ctx.probe("randomised_full_obs_equal_after_continue");
           ctx.check(); ctx.probe("continue_compared");
         }
       } else if (s.kind == OP_CHECKPOINT) {
-        const int variant = static_cast<int>(s.a) % f->n_variants(); const unsigned h = HEADERS[static_cast<size_t>(s.b) % 6]; const bool via_stream = s.c != 0;
-        const std::string want = orig->obs(false);
+        int variant = static_cast<int>(s.a) % f->n_variants(); const unsigned h = HEADERS[static_cast<size_t>(s.b) % 6]; const bool via_stream = s.c != 0;
+        if (!orig->variant_ok(variant)) { ctx.probe("variant_not_applicable"); variant = 0; }
         Bytes img = orig->ser(variant, 0);
+        // the in-memory object that was serialized, taken after serialize() because serializing may itself repair lazy state (t-digest compresses)
+        std::unique_ptr<Sk> control(orig->image_source(variant));
+        const std::string want = control->obs(false);
         // (a) both writers agree
         { std::ostringstream os; orig->ser_os(variant, os); std::string st = os.str();
           if (st.size() != img.size() || std::memcmp(st.data(), img.data(), img.size()) != 0) ctx.fail(fp("C09", *orig, variant, "write", "stream-vs-bytes-differ"), "stream " + std::to_string(st.size()) + " bytes, vector " + std::to_string(img.size()) + " bytes"); }
@@ -329,14 +334,15 @@ struct C09World: World {
           if (got != want) ctx.fail(fp("C09", *orig, variant, via_stream ? "stream" : "bytes", "restored-differs"), "original " + want.substr(0, 400) + " vs restored " + got.substr(0, 400)); }
         // (f) re-serialization
         { Bytes again = restored->ser(variant, 0);
-          if (again != img) {
+          if (again != img && restored->canonical(variant, again) == restored->canonical(variant, img)) { ctx.probe("reserialized_equal_up_to_table_order"); }
+          else if (again != img) {
             size_t d = 0; while (d < again.size() && d < img.size() && again[d] == img[d]) d++;
             ctx.fail(fp("C09", *orig, variant, "reserialize", "image-differs"), "sizes " + std::to_string(img.size()) + " vs " + std::to_string(again.size()) + ", first difference at byte " + std::to_string(d));
           } }
         check_seam_errors(ctx, "C09", *orig, variant, "roundtrip");
         ctx.check(); ctx.nontrivial = true;
         ctx.probe((std::string("rt_") + orig->fam() + "_v" + std::to_string(variant)).c_str());
-        if (shadows.size() < 3 && restored->can_continue()) { shadows.push_back(Shadow{std::move(restored), variant}); }
+        if (shadows.size() < 3 && restored->can_continue()) { shadows.push_back(Shadow{std::move(control), std::move(restored), variant}); }
       } else if (s.kind == OP_CRASH) {
         ctx.fault("crash");
         // every live object dies; only the log survives
